@@ -60,6 +60,30 @@ def make_target(spec, D):
             d = np.asarray(x, dtype=float).ravel() - m
             return float(math.floor(float(d @ d) * q) / q)
         return f
+    if fam == "script":
+        # value by CALL ORDER, not by position: the n-th call returns a value in the scripted relation to the
+        # running minimum of the values returned so far (scripts come from TLC behaviours of BadsRun, see
+        # specs/BadsRunSim.tla): W worse, T tie, I better by 1e-6 (< tol_fun), S better by 4 (> every threshold)
+        script = list(spec["script"])
+        st = {"n": 0, "m": None}
+
+        def f(x):
+            st["n"] += 1
+            n = st["n"]
+            d = script[n - 1] if n <= len(script) else "W"
+            if st["m"] is None:
+                val = 100.0
+            elif d == "T":
+                val = st["m"]
+            elif d == "I":
+                val = st["m"] - 1e-6
+            elif d == "S":
+                val = st["m"] - 4.0
+            else:
+                val = st["m"] + 1.0 + 0.015625 * (n % 7)
+            st["m"] = val if st["m"] is None else min(st["m"], val)
+            return float(val)
+        return f
     if fam == "rosen":
         def f(x):
             x = np.asarray(x, dtype=float).ravel()
